@@ -42,8 +42,13 @@ pub trait TypeSpace<'a> {
 
     /// Looks up type by name from this towards the parent type space.
     fn resolve_type(&self, name: &str) -> Option<Result<NamedType<'a>, TypeMapError>> {
-        self.get_type(name)
-            .or_else(|| LexicalAncestorSpaces::new(self).find_map(|ty| ty.get_type(name)))
+        match self.get_type(name) {
+            r @ Some(Ok(_)) => r,
+            // e.g. unresolvable super class, which shouldn't hide the outer types
+            r @ (Some(Err(_)) | None) => LexicalAncestorSpaces::new(self)
+                .find_map(|ty| ty.get_type(name))
+                .or(r),
+        }
     }
 
     /// Looks up type by scoped name from this towards the parent type space.
